@@ -391,7 +391,7 @@ func (in *Interp) execIf(x *ast.IfStmt, st *State) []*State {
 	if !known || !val {
 		f := st
 		if !known {
-			f.Conds = append(f.Conds, notT(cond))
+			f.Conds = append(f.Conds, notConds(cond)...)
 			if rF != nil {
 				rF(f)
 			}
@@ -1365,6 +1365,15 @@ func isParamOrRecv(c *Ctx, fd *ast.FuncDecl, o types.Object) bool {
 }
 
 var flipCmp = map[string]string{"==": "!=", "!=": "==", "<": ">=", ">=": "<", ">": "<=", "<=": ">"}
+
+// notConds: the conditions that hold when t is false; !(a || b) is !a, !b (De Morgan), so a
+// guard clause `if a || b { return }` leaves both negations visible to the rules.
+func notConds(t *T) []*T {
+	if t.Op == "bin" && t.Name == "||" && len(t.Args) == 2 {
+		return append(notConds(t.Args[0]), notConds(t.Args[1])...)
+	}
+	return []*T{notT(t)}
+}
 
 func notT(t *T) *T {
 	if t.Op == "un" && t.Name == "!" {
